@@ -300,50 +300,58 @@ theorem sniff_binary_same (c : Cps) (p : Nat) (incl : Bool) :
     | [_, _], hl => simp at hl
     | [_, _, _], hl => simp at hl
 
-/-- T20.4 totality, PARTIAL: every file object (text or binary) and every `str`/`bytes` document with at least four
-characters gets an answer, and with `includeDefault` the answer is an encoding. -/
-theorem sniff_total_partial (fp : Stream) (incl : Bool) (hl : 4 ≤ fp.content.length) :
+/-- T20.4 totality, full strength (since the fix "detectXMLEncoding no longer raises ValueError for a document shorter
+than four characters"; before, the statement needed `4 ≤ fp.content.length`, finding C20-xml-short): every file object
+(text or binary) and every `str`/`bytes` document, of any length, gets an answer, and with `includeDefault` the answer
+is an encoding. -/
+theorem sniff_total (fp : Stream) (incl : Bool) :
     ∃ r, (detectXMLStream fp incl).out = .ok r ∧ (incl = true → r ≠ none) := by
-  obtain ⟨c, p, b⟩ := fp
-  simp only at hl
-  match c, hl with
-  | b1 :: b2 :: b3 :: b4 :: t, _ =>
-    rw [detectXMLStream_long]
+  by_cases hl : fp.content.length < 4
+  · rw [detectXMLStream_short fp incl hl]
     refine ⟨_, rfl, ?_⟩
     intro hi; subst hi
-    unfold specSniff
-    simp only
+    unfold specSniffShort
     split
     · simp
     · split <;> simp
-  | [], hl => simp at hl
-  | [_], hl => simp at hl
-  | [_, _], hl => simp at hl
-  | [_, _, _], hl => simp at hl
+  · obtain ⟨c, p, b⟩ := fp
+    simp only at hl
+    match c, hl with
+    | b1 :: b2 :: b3 :: b4 :: t, _ =>
+      rw [detectXMLStream_long]
+      refine ⟨_, rfl, ?_⟩
+      intro hi; subst hi
+      unfold specSniff
+      simp only
+      split
+      · simp
+      · split <;> simp
+    | [], hl => simp at hl
+    | [_], hl => simp at hl
+    | [_, _], hl => simp at hl
+    | [_, _, _], hl => simp at hl
 
-/- Full statement — FALSE on the current tree (known finding C20-xml-short; the answers for documents shorter than
-four characters are pinned by two rows of test_encutils):
-   theorem sniff_total (fp : Stream) (incl : Bool) :
-     ∃ r, (detectXMLStream fp incl).out = .ok r ∧ (incl = true → r ≠ none)
-   The theorem below proves its negation on the whole excluded region. -/
-
-/-- finding C20-xml-short, machine-checked on the whole region: with fewer than four characters the sniffer raises
-`ValueError` (tuple unpacking) instead of answering UTF-8 (the stream is left untouched, see above) -/
-theorem sniff_short_raises (fp : Stream) (incl : Bool) (hl : fp.content.length < 4) :
-    (detectXMLStream fp incl).out = .error .valueError := by
+/-- what the sniffer answers for a document of fewer than four characters: a two- or three-byte BOM is still
+recognised, otherwise the default (the declaration pattern cannot match: `decl_iff` needs at least `<?xml`) -/
+theorem sniff_short_answer (fp : Stream) (incl : Bool) (hl : fp.content.length < 4) :
+    (detectXMLStream fp incl).out = .ok (specSniffShort fp.content incl) := by
   rw [detectXMLStream_short fp incl hl]
 
-/-- the guard of `sniff_total_partial` is exact: the sniffer returns iff the document has at least four characters -/
-theorem sniff_returns_iff (fp : Stream) (incl : Bool) :
-    (∃ r, (detectXMLStream fp incl).out = .ok r) ↔ 4 ≤ fp.content.length := by
-  constructor
-  · rintro ⟨r, hr⟩
-    by_cases hl : fp.content.length < 4
-    · rw [sniff_short_raises fp incl hl] at hr; cases hr
-    · omega
-  · intro hl
-    obtain ⟨r, hr, _⟩ := sniff_total_partial fp incl hl
-    exact ⟨r, hr⟩
+example : (detectXMLStream ⟨cps "<a>", 1, false⟩ true).out = .ok (some (cps "utf-8")) := by decide
+example : (detectXMLStream ⟨[0xFE, 0xFF], 0, true⟩ false).out = .ok (some (cps "utf_16_be")) := by decide
+example : (detectXMLStream ⟨[0xEF, 0xBB, 0xBF], 0, true⟩ false).out = .ok (some (cps "utf-8")) := by decide
+example : (detectXMLStream ⟨[], 0, false⟩ false).out = .ok none := by decide
+
+/-- finding C20-info-short, machine-checked on the whole region: `getEncodingInfo` does not consult the sniffer for a
+document of fewer than four characters (`sniffable`), although the sniffer would answer (`sniff_total`): the XML
+encoding stays unknown for every media-type class (pinned by two rows of test_encutils) -/
+theorem info_short_not_sniffed (tt : Nat) (txt : Cps) (h : txt.length < 4) : xmlOf tt txt = .ok none := by
+  have h' : ¬ 4 ≤ txt.length := by omega
+  unfold xmlOf
+  simp [h']
+
+example : xmlOf C20.XML_APPLICATION_TYPE (cps "<a>") = .ok none ∧
+    detectXML (cps "<a>") true = .ok (some (cps "utf-8")) := by decide
 
 /-! ### what "the declared encoding" is for the pattern (`xmlDeclPattern`, matched on the first 2048 characters) -/
 
